@@ -43,6 +43,7 @@ type eCase struct {
 	Prev    string     `json:"prev"`    // fresh | stale
 	Hold    string     `json:"hold"`    // name of the rule held at its gate ("" = none)
 	History []eHistOp  `json:"history"` // when present, the rule set is built by this sequence of builder operations (C04)
+	Warm    bool       `json:"warm"`    // execute the entry point once on the same engine and builder BEFORE the last history operation
 	QuietMs int        `json:"quiet_ms"`
 }
 
@@ -53,25 +54,26 @@ type eHistOp struct {
 }
 
 type eObs struct {
-	PrimeKeys []string `json:"prime_keys"` // keys of the map handed back by the priming call, read again after the call under test
-	ID      int                    `json:"id"`
-	Order   []string               `json:"order"` // rb.Kc.SortRules names as installed
-	Events  [][2]string            `json:"events"`
-	Err     bool                   `json:"err"`
-	ErrMsg  string                 `json:"errmsg,omitempty"`
-	Result  map[string]interface{} `json:"result"`
-	NilMap  bool                   `json:"nilmap"`
-	Panic   string                 `json:"panic,omitempty"`
-	Hang    bool                   `json:"hang"`
-	Held    bool                   `json:"held"`           // the held rule did reach its gate
-	During  int                    `json:"during"`         // events recorded while the rule was held
-	Late    int                    `json:"late"`           // events recorded AFTER the call had returned
-	Compile string                 `json:"compile,omitempty"`
+	PrimeKeys []string               `json:"prime_keys"` // keys of the map handed back by the priming call, read again after the call under test
+	ID        int                    `json:"id"`
+	Order     []string               `json:"order"` // rb.Kc.SortRules names as installed
+	Events    [][2]string            `json:"events"`
+	Err       bool                   `json:"err"`
+	ErrMsg    string                 `json:"errmsg,omitempty"`
+	Result    map[string]interface{} `json:"result"`
+	NilMap    bool                   `json:"nilmap"`
+	Panic     string                 `json:"panic,omitempty"`
+	Hang      bool                   `json:"hang"`
+	Held      bool                   `json:"held"`   // the held rule did reach its gate
+	During    int                    `json:"during"` // events recorded while the rule was held
+	Late      int                    `json:"late"`   // events recorded AFTER the call had returned
+	Compile   string                 `json:"compile,omitempty"`
 }
 
 type observer struct {
 	mu     sync.Mutex
 	events [][2]string
+	priv   int64 // an unexported field: a rule can read it, but reflect refuses to hand the value out of Execute
 }
 
 func (o *observer) S(n string) {
@@ -146,6 +148,8 @@ func eRuleText(r eRule) string {
 		sb.WriteString("  return !5\n")
 	case "loop": // unbounded for loop: cut off after maxExecuteNum iterations
 		sb.WriteString("  for i = 0; true; i += 1 {\n  }\n")
+	case "retpriv": // the return expression evaluates, but the value cannot leave the rule (Interface() panics): the rule FAILED
+		sb.WriteString("  return Obs.priv\n")
 	case "brk": // a break that is in no loop (grammatically legal): the rule fails, it has NOT returned
 		sb.WriteString("  if 1 == 1 {\n    break\n  }\n")
 	case "cont": // a continue that is in no loop
@@ -231,11 +235,33 @@ func callEntry(g *engine.Gengine, rb *builder.RuleBuilder, c *eCase, tag *engine
 
 func runEngineCase(c *eCase) eObs {
 	obs := eObs{ID: c.ID, Result: map[string]interface{}{}}
-	var master *builder.RuleBuilder
 	var err error
+	ob := &observer{}
+	gt := newGate(c.Hold)
+	tag := &engine.Stag{StopTag: c.Stop0}
+	dc := context.NewDataContext()
+	dc.Add("Obs", ob)
+	dc.Add("Gate", gt)
+	dc.Add("Tag", tag)
+	rb := builder.NewRuleBuilder(dc)
+	g := engine.NewGengine()
 	if len(c.History) > 0 {
-		master = builder.NewRuleBuilder(context.NewDataContext())
-		for _, op := range c.History {
+		// the history is applied to the builder the call will use; with Warm the same engine executes the same entry point once
+		// BEFORE the last operation (result discarded), so that anything the engine or the builder remembers from an earlier
+		// call on an earlier rule set is in place when the observed call runs
+		for i, op := range c.History {
+			if c.Warm && i == len(c.History)-1 && i > 0 {
+				dc.Add("Gate", newGate(""))
+				func() {
+					defer func() { _ = recover() }()
+					_ = callEntry(g, rb, c, tag)
+				}()
+				tag.StopTag = c.Stop0 // the rules of the warm call may have set the tag: the observed call starts as specified
+				dc.Add("Gate", gt)
+				ob.mu.Lock()
+				ob.events = nil
+				ob.mu.Unlock()
+			}
 			var sb strings.Builder
 			for _, r := range op.Rules {
 				sb.WriteString(eRuleText(r))
@@ -248,11 +274,11 @@ func runEngineCase(c *eCase) eObs {
 				}()
 				switch op.Kind {
 				case "full":
-					err = master.BuildRuleFromString(sb.String())
+					err = rb.BuildRuleFromString(sb.String())
 				case "incr":
-					err = master.BuildRuleWithIncremental(sb.String())
+					err = rb.BuildRuleWithIncremental(sb.String())
 				case "remove":
-					err = master.RemoveRules(op.Names)
+					err = rb.RemoveRules(op.Names)
 				}
 			}()
 			if err != nil {
@@ -260,29 +286,23 @@ func runEngineCase(c *eCase) eObs {
 			}
 		}
 	} else {
+		var master *builder.RuleBuilder
 		master, _, err = compiledRules(c.Rules)
+		if err == nil {
+			rb.Kc = master.Kc
+		}
 	}
 	if err != nil {
 		obs.Compile = err.Error()
 		return obs
 	}
-	for _, r := range master.Kc.SortRules {
+	for _, r := range rb.Kc.SortRules {
 		obs.Order = append(obs.Order, r.RuleName)
 	}
 	if obs.Order == nil {
 		obs.Order = []string{}
 	}
-	ob := &observer{}
-	gt := newGate(c.Hold)
-	tag := &engine.Stag{StopTag: c.Stop0}
-	dc := context.NewDataContext()
-	dc.Add("Obs", ob)
-	dc.Add("Gate", gt)
-	dc.Add("Tag", tag)
-	rb := builder.NewRuleBuilder(dc)
-	rb.Kc = master.Kc
 
-	g := engine.NewGengine()
 	var primeMap map[string]interface{}
 	if c.Prev == "stale" || c.Prev == "stale-empty" {
 		prime := builder.NewRuleBuilder(context.NewDataContext())
